@@ -202,3 +202,160 @@ pub fn c05(a: &Args) {
 pub fn rule_names() -> BTreeSet<String> {
     front::curated_group(Dialect::American).iter_keys().map(|s| s.to_string()).collect()
 }
+
+// ------------------------------------------------------------------ C11
+
+fn cfg_state(c: &LintGroupConfig, keys: &[&str; 3]) -> Value {
+    // project onto the three model keys: absent / "On" / "Off" / "None"
+    let j = serde_json::to_value(c).unwrap();
+    let mut m = serde_json::Map::new();
+    for (model, real) in ["r1", "r2", "zz"].iter().zip(keys.iter()) {
+        if let Some(v) = j.get(*real) {
+            m.insert(model.to_string(), json!(match v { Value::Bool(true) => "On", Value::Bool(false) => "Off", _ => "None" }));
+        }
+    }
+    Value::Object(m)
+}
+
+fn cfg_from_state(s: &Value, keys: &[&str; 3]) -> LintGroupConfig {
+    let mut m = serde_json::Map::new();
+    for (model, real) in ["r1", "r2", "zz"].iter().zip(keys.iter()) {
+        if let Some(v) = s.get(*model) {
+            m.insert(real.to_string(), match v.as_str().unwrap() { "On" => json!(true), "Off" => json!(false), _ => Value::Null });
+        }
+    }
+    serde_json::from_value(Value::Object(m)).unwrap()
+}
+
+pub fn c11(a: &Args) {
+    let mut out = Out::create(a.req("out"));
+    let mut rng = Rng::new(a.num("seed", 1));
+    let names: Vec<String> = front::curated_group(Dialect::American).iter_keys().map(|s| s.to_string()).collect();
+    let curated = LintGroupConfig::new_curated();
+    let on: Vec<&String> = names.iter().filter(|n| curated.is_rule_enabled(n)).collect();
+    let off: Vec<&String> = names.iter().filter(|n| !curated.is_rule_enabled(n)).collect();
+    // (R) every (cfg, other) state of MC_Config x every operation, on the real LintGroupConfig
+    if let Some(cases) = a.get("cases") {
+        for (ci, c) in read_ndjson(cases).into_iter().enumerate() {
+            let r1 = on[(ci + a.num("seed", 1) as usize) % on.len()].as_str();
+            let r2 = off[ci % off.len()].as_str();
+            let keys = [r1, r2, "NoSuchRule"];
+            let mk = |s: &Value| cfg_from_state(s, &keys);
+            let mut ops: Vec<(&str, usize, bool)> = Vec::new();
+            for k in 0..3 { for on in [true, false] { ops.push(("Set", k, on)); ops.push(("SetIfUnset", k, on)); } ops.push(("Unset", k, false)); }
+            ops.push(("Clear", 0, false)); ops.push(("MergeFrom", 0, false)); ops.push(("FillWithCurated", 0, false)); ops.push(("Json", 0, false));
+            for (op, k, onv) in ops {
+                let mut cfg = mk(&c["cfg"]);
+                let mut other = mk(&c["other"]);
+                let mut enabled_before = Vec::new();
+                for key in keys { enabled_before.push(cfg.is_rule_enabled(key)); }
+                match op {
+                    "Set" => cfg.set_rule_enabled(keys[k], onv),
+                    "SetIfUnset" => cfg.set_rule_enabled_if_unset(keys[k], onv),
+                    "Unset" => cfg.unset_rule_enabled(keys[k]),
+                    "Clear" => cfg.clear(),
+                    "MergeFrom" => cfg.merge_from(&mut other),
+                    "FillWithCurated" => cfg.fill_with_curated(),
+                    _ => { let j = serde_json::to_string(&cfg).unwrap(); cfg = serde_json::from_str(&j).unwrap(); }
+                }
+                // outside the three keys nothing but curated defaults may appear
+                let stray = serde_json::to_value(&cfg).unwrap().as_object().unwrap().iter()
+                    .filter(|(kk, v)| !keys.contains(&kk.as_str()) && serde_json::to_value(&curated).unwrap().get(kk.as_str()) != Some(v)).count();
+                let kname = ["r1", "r2", "zz"][k];
+                out.emit(&json!({"ev": "Cfg", "op": op, "k": kname, "on": onv,
+                    "before": c["cfg"], "other": c["other"], "after": cfg_state(&cfg, &keys), "other_after": cfg_state(&other, &keys),
+                    "enabled_before": enabled_before,
+                    "enabled_after": keys.iter().map(|kk| cfg.is_rule_enabled(kk)).collect::<Vec<_>>(), "stray": stray,
+                    "keys": keys}));
+            }
+        }
+    }
+    // (T) union decomposition on real rules, on reused linters
+    if let Some(corpus) = a.get("corpus") {
+        let corpus = read_corpus(corpus);
+        let n = a.num("docs", 300) as usize;
+        let jobs: Vec<(String, String, u64)> = (0..n).map(|i| {
+            let t = if i % 3 == 0 { crate::inputs::compose(&corpus, &mut rng) } else { rng.pick(&corpus[..]).clone() };
+            (t, if i % 2 == 0 { "plain".to_string() } else { "md".to_string() }, rng.next())
+        }).collect();
+        let names2 = names.clone();
+        let evs = par_map(jobs.len(), a.num("threads", 12) as usize,
+            |_| LintGroup::new_curated(FstDictionary::curated(), Dialect::American),
+            |lg, i| {
+                let (text, lang, s) = &jobs[i];
+                let mut r = Rng::new(*s);
+                let mut evs = Vec::new();
+                // E: random enabled set; A/B: random partition of E; also "toggle one rule"
+                let e_set: Vec<&String> = names2.iter().filter(|_| r.chance(2, 3)).collect();
+                let toggled = if e_set.is_empty() { None } else { Some(e_set[r.below(e_set.len())].clone()) };
+                let (a_set, b_set): (Vec<&String>, Vec<&String>) = if r.chance(1, 2) {
+                    e_set.iter().partition(|_| r.chance(1, 2))
+                } else {
+                    e_set.iter().partition(|n| Some((**n).clone()) != toggled)
+                };
+                let mut run = |set: &[&String]| -> Result<Vec<String>, String> {
+                    let mut c = LintGroupConfig::default();
+                    for nme in &names2 { c.set_rule_enabled(nme, false); }
+                    for nme in set { c.set_rule_enabled(nme.as_str(), true); }
+                    lg.config = c;
+                    catch(|| lg.lint(&make_doc(text, lang)).iter().map(lint_digest).collect())
+                };
+                let (re, ra, rb) = (run(&e_set), run(&a_set), run(&b_set));
+                // the same E again after the partitions: the cache is warm now
+                let re2 = run(&e_set);
+                if let (Ok(e), Ok(a), Ok(b), Ok(e2)) = (re, ra, rb, re2) {
+                    evs.push(json!({"ev": "Parts", "text": text, "lang": lang, "ne": e_set.len(), "na": a_set.len(),
+                        "e": e, "a": a, "b": b, "e2": e2}));
+                }
+                evs
+            });
+        for v in evs { for e in v { out.emit(&e); } }
+        // entry formats: harper-wasm JSON config and harper-ls settings, overlaid on curated defaults
+        let dict = FstDictionary::curated();
+        for i in 0..a.num("overlays", 60) as usize {
+            let text = rng.pick(&corpus[..]).clone();
+            let mut user = serde_json::Map::new();
+            for _ in 0..rng.range(0, 6) {
+                let k = if rng.chance(1, 5) { format!("Unknown{}", rng.below(5)) } else { rng.pick(&names[..]).clone() };
+                user.insert(k, if rng.chance(1, 6) { Value::Null } else { json!(rng.chance(1, 2)) });
+            }
+            // expected: curated defaults, explicit user values on top, unknown names ignored
+            let mut want_cfg = LintGroupConfig::new_curated();
+            for (k, v) in &user { if let Value::Bool(b) = v { want_cfg.set_rule_enabled(k, *b); } }
+            let want = catch(|| {
+                let mut lg = LintGroup::new_curated(dict.clone(), Dialect::American).with_lint_config(want_cfg.clone());
+                lg.lint(&make_doc(&text, "plain")).iter().map(lint_digest).collect::<Vec<_>>()
+            });
+            let ujson = Value::Object(user.clone());
+            let got_wasm = catch(|| {
+                let mut l = harper_wasm::Linter::new(harper_wasm::Dialect::American);
+                l.set_lint_config_from_json(ujson.to_string()).unwrap();
+                // JSON round trip of the stored configuration
+                let back = l.get_lint_config_as_json();
+                let mut l2 = harper_wasm::Linter::new(harper_wasm::Dialect::American);
+                l2.set_lint_config_from_json(back).unwrap();
+                let a1: Vec<(usize, usize, String)> = l.lint(text.clone(), harper_wasm::Language::Plain).iter().map(|x| (x.span().start, x.span().end, x.message())).collect();
+                let a2: Vec<(usize, usize, String)> = l2.lint(text.clone(), harper_wasm::Language::Plain).iter().map(|x| (x.span().start, x.span().end, x.message())).collect();
+                (a1, a2)
+            });
+            let got_ls = catch(|| {
+                let cfg = crate::config::Config::from_lsp_config(json!({"harper-ls": {"linters": ujson}})).unwrap();
+                let mut lg = LintGroup::new_curated(dict.clone(), Dialect::American).with_lint_config(cfg.lint_config);
+                lg.config.fill_with_curated();
+                lg.lint(&make_doc(&text, "plain")).iter().map(lint_digest).collect::<Vec<_>>()
+            });
+            // the wasm API removes overlaps; compare it on (span, message) against the same treatment of `want`
+            let want_wasm = catch(|| {
+                let mut lg = LintGroup::new_curated(dict.clone(), Dialect::American).with_lint_config(want_cfg.clone());
+                let mut l = lg.lint(&make_doc(&text, "plain"));
+                harper_core::remove_overlaps(&mut l);
+                l.iter().map(|x| (x.span.start, x.span.end, x.message.clone())).collect::<Vec<_>>()
+            });
+            if let (Ok(want), Ok((w1, w2)), Ok(ls), Ok(ww)) = (want, got_wasm, got_ls, want_wasm) {
+                out.emit(&json!({"ev": "Overlay", "i": i, "text": text, "user": ujson.to_string(), "want": want, "ls": ls,
+                    "wasm_ok": w1 == ww, "wasm_roundtrip_ok": w1 == w2}));
+            }
+        }
+    }
+    println!("{}", json!({"events": out.finish()}));
+}
